@@ -31,9 +31,11 @@ func VerifC13_Ops() {
 		_, _ = c.IsRevoked(cert, chainFor(cert))
 		verifrt.RunSpawned()
 		if state == 1 {
-			bad := crlrepository.VerifNewCRL("BAD", "CN=I1", s1)
-			bad.SetSigOK(false)
-			crlrepository.VerifSetServer(urlA, true, bad)
+			// the refreshed list was signed with a new CA key: the stored signer does not verify it,
+			// a chain presented by a later handshake does (key rollover)
+			rolled := crlrepository.VerifNewCRL("ROLLED", "CN=I1", s1)
+			rolled.SetNeedsIssuerCA(true)
+			crlrepository.VerifSetServer(urlA, true, rolled)
 			c.crlRepository.UpdateCRLs()
 		}
 	case 2:
